@@ -455,6 +455,15 @@ func compare(a string, b string, caseless bool) bool {
 }
 
 func (es *SearchEngineState) MATCH(value string, not bool, caseless bool) {
+	if len(value) == 0 {
+		// the empty text is found everywhere, also at the end of the input: a back-reference to a group that matched nothing
+		if not {
+			es.BACKTRACK()
+		} else {
+			es.NEXT()
+		}
+		return
+	}
 	comp := es.READ(len(value))
 
 	if len(comp) == 0 {
